@@ -101,6 +101,9 @@ type DestSpec struct {
 	// ErrInstMax: a scripted stream error (OutErr) only fires in plugin instances <= ErrInstMax
 	// (0 = every instance), so that a recovery restart can get past it.
 	ErrInstMax int `json:"err_inst_max,omitempty"`
+	// ErrEOF: a scripted stream error ends the stream WITHOUT an error (the plugin process went
+	// away): the engine sees io.EOF instead of a plugin error.
+	ErrEOF bool `json:"err_eof,omitempty"`
 }
 
 type DLQSpec struct {
@@ -108,6 +111,8 @@ type DLQSpec struct {
 	Threshold  int `json:"threshold"`
 	// PerRecord maps Key(src,seq,0) -> outcome of the DLQ write; default ack.
 	PerRecord map[string]Outcome `json:"per_record,omitempty"`
+	// ErrEOF: as DestSpec.ErrEOF, for the DLQ connector.
+	ErrEOF bool `json:"err_eof,omitempty"`
 }
 
 type RecoverySpec struct {
@@ -147,6 +152,9 @@ type Case struct {
 	DLQ            DLQSpec        `json:"dlq"`
 	StoreFaults    []Fault        `json:"store_faults,omitempty"`
 	GateCommits    bool           `json:"gate_commits,omitempty"`
+	// GateSrcAcks: the source plugin holds every ack message it received until the scheduler
+	// releases it (a plugin that is slow to take acks).
+	GateSrcAcks bool `json:"gate_src_acks,omitempty"`
 	GateCallbacks  bool           `json:"gate_callbacks,omitempty"` // persister callbacks are scheduler actions
 	GateStatus     bool           `json:"gate_status,omitempty"`    // the return of every pipeline status write is a scheduler action
 	Client         []ClientAction `json:"client,omitempty"`
@@ -201,4 +209,63 @@ func ParsePos(p string) (src, seq int, ok bool) {
 		return 0, 0, false
 	}
 	return a, b, true
+}
+
+
+// Faultless reports whether the script contains nothing that can make the pipeline fail: every
+// destination and the DLQ confirm everything, processors only pass, modify, filter or split,
+// sources never fail, no store or status faults, no hostile shapes.
+func (c *Case) Faultless() bool {
+	if len(c.StatusFailAt) > 0 || len(c.DLQ.PerRecord) > 0 {
+		return false
+	}
+	for _, s := range c.Sources {
+		if s.ReadFaultAfter >= 0 || s.EmptyPosAt >= 0 || s.DupPosAt >= 0 || s.OpenFailInst != 0 {
+			return false
+		}
+	}
+	for _, d := range c.Dests {
+		for _, o := range d.PerPiece {
+			if o != OutAck {
+				return false
+			}
+		}
+	}
+	for _, p := range c.Procs {
+		if p.OpenFailGen != 0 || len(p.ShortAt) > 0 {
+			return false
+		}
+		for _, k := range p.PerRecord {
+			switch k {
+			case KPass, KModify, KFilter, KSplit2, KSplit3:
+			default:
+				return false
+			}
+		}
+	}
+	return true
+}
+
+
+// MakeFaultless removes everything from the script that can make the pipeline fail (see Faultless).
+func (c *Case) MakeFaultless() {
+	c.StatusFailAt = nil
+	c.DLQ.PerRecord = map[string]Outcome{}
+	for i := range c.Sources {
+		c.Sources[i].ReadFaultAfter, c.Sources[i].EmptyPosAt, c.Sources[i].DupPosAt, c.Sources[i].OpenFailInst = -1, -1, -1, 0
+	}
+	for i := range c.Dests {
+		c.Dests[i].PerPiece = map[string]Outcome{}
+	}
+	for i := range c.Procs {
+		c.Procs[i].OpenFailGen = 0
+		c.Procs[i].ShortAt = nil
+		for k, kind := range c.Procs[i].PerRecord {
+			switch kind {
+			case KPass, KModify, KFilter, KSplit2, KSplit3:
+			default:
+				delete(c.Procs[i].PerRecord, k)
+			}
+		}
+	}
 }
